@@ -50,7 +50,7 @@ PROBES = [
     "vector_only_vs_tensor_only", "negative_mean_data", "single_row_parts", "rejected_between_accepted",
     "negative_axis", "float32_part", "mean_much_larger_than_std", "nostats_after_aborted_apply", "many_frames_in_one_call",
     "no_stats_single_vector_tensor", "tensor_4d", "apply_vector", "apply_tensor", "no_stats_tensor", "midway_apply",
-    "non_contiguous_part", "apply_non_contiguous", "apply_in_place_non_contiguous_3d", "no_stats_non_contiguous",
+    "other_instance_same_count_before", "non_contiguous_part", "apply_non_contiguous", "apply_in_place_non_contiguous_3d", "no_stats_non_contiguous",
 ]
 FAULT_KINDS = ["rejected_wrong_dim", "rejected_empty", "apply_aborted_by_warning"]
 
@@ -166,7 +166,8 @@ def generate(rng, tier, k):
                                  "norm_var": rng.random() < 0.3, "in_place": rng.random() < 0.5,
                                  "dtype": rng.choice(("float64", "float32", "int16"))}
     midway = rng.random() < 0.3
-    return {"data": rec, "histories": hist, "queries": queries, "nostats": nostats, "midway": midway}
+    return {"data": rec, "histories": hist, "queries": queries, "nostats": nostats, "midway": midway,
+            "prior_other": rng.randrange(1, 1 << 30) if rng.random() < 0.15 else None}
 
 
 LAYOUTS = ("c", "c", "c", "f", "rev", "gap", "gap0", "t")
@@ -268,6 +269,23 @@ def execute(scn, keep_trace=False):
         if n >= 2 and (np.abs(X.mean(axis=0)) / np.maximum(X.std(axis=0), 1e-300) > 1e3).any():
             res.probe("mean_much_larger_than_std")
     scale_data = float(np.abs(X).max()) or 1.0
+
+    if scn.get("prior_other"):
+        # history of the process: another instance has accumulated the same NUMBER of other vectors of the same dimension
+        # and has been applied (state shared between instances, if any, must be keyed by the statistics themselves)
+        res.probe("other_instance_same_count_before")
+        g0 = model.np_rng(int(scn["prior_other"]))
+        Y = g0.standard_normal((n, d)) * (0.5 * scale_data) + scale_data
+        for nv in (True, False):
+            o = _post.Standardize(norm_var=nv)
+            try:
+                with warnings.catch_warnings():
+                    warnings.simplefilter("ignore")
+                    o.accumulate(Y)
+                    o.apply(Y[0])
+                    o.apply(Y[: min(n, 3)])
+            except Exception:
+                pass
 
     insts = []  # per history: (inst_nv_true, inst_nv_false)
     final_model = None
@@ -657,7 +675,7 @@ def minimise(scn, test, budget):
     scn = copy.deepcopy(scn)
     if not test(scn):
         return scn
-    for key, val in (("nostats", None), ("midway", False)):
+    for key, val in (("prior_other", None), ("nostats", None), ("midway", False)):
         if scn.get(key):
             c = copy.deepcopy(scn)
             c[key] = val
